@@ -1,0 +1,164 @@
+//go:build verif
+
+// Package simhook holds the seams used by the deterministic-simulation
+// harness in /verif. This file is only compiled with `-tags verif`.
+package simhook
+
+import (
+	"fmt"
+	"io"
+	"os"
+	"strconv"
+	"strings"
+	"sync"
+	"syscall"
+	"unsafe"
+)
+
+// YieldFn is installed by the in-process simulator before the system under
+// test is started. When nil, Yield is a no-op.
+var YieldFn func(site string, id int64)
+
+// WrapFileFn is installed by the in-process simulator (simulated disk).
+var WrapFileFn func(path string, f *os.File) io.Reader
+
+func Yield(site string, id int64) {
+	if f := YieldFn; f != nil {
+		f(site, id)
+	}
+}
+
+func WrapFile(path string, f *os.File) io.Reader {
+	if fn := WrapFileFn; fn != nil {
+		return fn(path, f)
+	}
+	return envDisk(path, f)
+}
+
+// ---- process tier: simulated disk selected by environment ----
+//
+// VERIF_DISK="<open-ordinal>:<chunk>:<errAt>" applies to the n-th (1-based)
+// local file opened by this process whose path equals VERIF_DISK_PATH:
+// reads return at most <chunk> bytes and fail with EIO once <errAt> bytes have
+// been served (errAt<0: never).
+
+var envDiskMu sync.Mutex
+var envDiskOpens int
+
+type envDiskReader struct {
+	f      *os.File
+	chunk  int
+	errAt  int64
+	served int64
+}
+
+func (r *envDiskReader) Read(p []byte) (int, error) {
+	if r.errAt >= 0 && r.served >= r.errAt {
+		return 0, syscall.EIO
+	}
+	if r.chunk > 0 && len(p) > r.chunk {
+		p = p[:r.chunk]
+	}
+	if r.errAt >= 0 && int64(len(p)) > r.errAt-r.served {
+		p = p[:r.errAt-r.served]
+	}
+	n, err := r.f.Read(p)
+	r.served += int64(n)
+	return n, err
+}
+
+func envDisk(path string, f *os.File) io.Reader {
+	spec := os.Getenv("VERIF_DISK")
+	if spec == "" || path != os.Getenv("VERIF_DISK_PATH") {
+		return nil
+	}
+	parts := strings.Split(spec, ":")
+	if len(parts) != 3 {
+		return nil
+	}
+	ordinal, _ := strconv.Atoi(parts[0])
+	chunk, _ := strconv.Atoi(parts[1])
+	errAt, _ := strconv.ParseInt(parts[2], 10, 64)
+	envDiskMu.Lock()
+	envDiskOpens++
+	n := envDiskOpens
+	envDiskMu.Unlock()
+	if n != ordinal {
+		return nil
+	}
+	return &envDiskReader{f: f, chunk: chunk, errAt: errAt}
+}
+
+// ---- process tier: crash points ----
+//
+// VERIF_TRACE=<file>: every crash point passed is appended as one line.
+// VERIF_CRASH="<name>#<occurrence>:kill"      SIGKILL self at that point.
+// VERIF_CRASH="<name>#<occurrence>:tear:<k>"  from that point on, any write
+//   that would grow a file beyond k bytes is cut there by the kernel
+//   (RLIMIT_FSIZE) and the process dies of SIGXFSZ: a torn write.
+
+var crashMu sync.Mutex
+var crashCounts = map[string]int{}
+var tearArmed bool // once RLIMIT_FSIZE is lowered the trace file must not be written any more
+
+func CrashPoint(name string) {
+	crashMu.Lock()
+	crashCounts[name]++
+	occ := crashCounts[name]
+	crashMu.Unlock()
+
+	fired := ""
+	spec := os.Getenv("VERIF_CRASH")
+	if spec != "" {
+		if i := strings.Index(spec, ":"); i > 0 {
+			target, mode := spec[:i], spec[i+1:]
+			if target == fmt.Sprintf("%s#%d", name, occ) {
+				fired = mode
+			}
+		}
+	}
+	crashMu.Lock()
+	armed := tearArmed
+	crashMu.Unlock()
+	if tf := os.Getenv("VERIF_TRACE"); tf != "" && !armed {
+		if f, err := os.OpenFile(tf, os.O_APPEND|os.O_CREATE|os.O_WRONLY, 0644); err == nil {
+			fmt.Fprintf(f, "%s#%d %s\n", name, occ, fired)
+			f.Close()
+		}
+	}
+	switch {
+	case fired == "":
+		return
+	case fired == "kill":
+		syscall.Kill(syscall.Getpid(), syscall.SIGKILL)
+		select {}
+	case strings.HasPrefix(fired, "tear:"):
+		k, err := strconv.ParseUint(fired[len("tear:"):], 10, 64)
+		if err != nil {
+			fmt.Fprintf(os.Stderr, "simhook: bad VERIF_CRASH %q\n", spec)
+			os.Exit(97)
+		}
+		// Make sure the kernel's default action (terminate) applies to
+		// SIGXFSZ, bypassing both an inherited SIG_IGN and the Go runtime's
+		// handler, so that no deferred code runs after the torn write.
+		type sigactiont struct {
+			handler  uintptr
+			flags    uint64
+			restorer uintptr
+			mask     uint64
+		}
+		var sa sigactiont // SIG_DFL
+		if _, _, e := syscall.RawSyscall6(syscall.SYS_RT_SIGACTION, uintptr(syscall.SIGXFSZ), uintptr(unsafe.Pointer(&sa)), 0, 8, 0, 0); e != 0 {
+			fmt.Fprintf(os.Stderr, "simhook: rt_sigaction: %v\n", e)
+			os.Exit(97)
+		}
+		crashMu.Lock()
+		tearArmed = true
+		crashMu.Unlock()
+		lim := syscall.Rlimit{Cur: k, Max: k}
+		if err := syscall.Setrlimit(syscall.RLIMIT_FSIZE, &lim); err != nil {
+			fmt.Fprintf(os.Stderr, "simhook: setrlimit: %v\n", err)
+			os.Exit(97)
+		}
+	}
+}
